@@ -23,7 +23,7 @@ ASSUMPTIONS = [
     'links are observed behaviourally (perturb each source with a fresh valid value and see which targets follow)',
 ]
 REQUIRED = {'rejected_attempts': 800, 'with_links': 500, 'link_probes': 2000, 'ref_attempts': 300, 'dynamic_attempts': 60, 'async_attempts': 40,
-            'unchecked_selector_attempts': 30}
+            'unchecked_selector_attempts': 30, 'class_route_follow_probes': 30}
 
 _st = {}
 _n = [100]
@@ -203,8 +203,12 @@ def run_case(idx, rng, P, rep):
         csel = param.Selector(objects=['k1', 'k2'], check_on_set=False, constant=True)
         rsel = param.ListSelector(objects=[1, 2], default=[1], check_on_set=False, readonly=True)
 
+    class SubTgt(Tgt):
+        pass
+
     Src.__name__ = f'Src{idx}'
     Tgt.__name__ = f'Tgt{idx}'
+    SubTgt.__name__ = f'SubTgt{idx}'
     s1, s2, by = Src(), Src(), Tgt()
     tkw = {}
     links = {}          # target param -> (source obj, source param, transform)
@@ -355,7 +359,9 @@ def run_case(idx, rng, P, rep):
         if route == 'inst':
             setattr(t, tp, bad)
         elif route == 'class':
-            setattr(Tgt, tp, bad)
+            # on the declaring class, or on a subclass that merely inherits the parameter
+            cls_target = SubTgt if rng.random() < 0.5 else Tgt
+            setattr(cls_target, tp, bad)
         elif route == 'update1':
             t.param.update(**{tp: bad})
         else:
@@ -394,6 +400,18 @@ def run_case(idx, rng, P, rep):
                 break
     if len(cls_log) != n_cls:
         viol('watcher-invoked', f'a class-level watcher was invoked during the rejected attempt: {cls_log[n_cls:]}')
+    # ---- a subclass that never got a value of its own keeps following its parent class, as before the attempt
+    if route == 'class' and tp in ('x', 'y', 's', 'sel'):
+        rep.count('class_route_follow_probes')
+        probe_v = {'x': 6.5, 'y': 7.5, 's': 'afollow', 'sel': 'w'}[tp]
+        was = getattr(Tgt, tp)
+        try:
+            setattr(Tgt, tp, probe_v)
+            if getattr(SubTgt, tp) != probe_v:
+                viol('subclass-stopped-following-parent', f'after the rejected {cls_target.__name__}.{tp} = {bad!r}: Tgt.{tp} = {probe_v!r} but '
+                     f'SubTgt.{tp} is {getattr(SubTgt, tp)!r} (SubTgt never had a value of its own)')
+        finally:
+            setattr(Tgt, tp, was)
     # ---- behavioural link probe: exactly the pre-attempt links follow their sources
     for k in applied_before_bad:
         links.pop(k, None)
